@@ -16,6 +16,7 @@ from jedi.api import keywords
 from jedi.api.strings import complete_dict
 from jedi.api.file_name import complete_file_name
 from jedi.inference import imports
+from jedi.inference import recursion
 from jedi.inference.base_value import ValueSet
 from jedi.inference.helpers import infer_call_of_leaf, parse_dotted_names
 from jedi.inference.context import get_global_filters
@@ -637,7 +638,10 @@ def _complete_getattr(user_context, instance):
             # objects, we just infer the object and return them as
             # completions.
             objects = context.infer_node(object_node)
-            return complete_trailer(user_context, objects)
+            # Proxies may delegate to each other in cycles.
+            with recursion.execution_allowed(context.inference_state, return_stmt) as allowed:
+                if allowed:
+                    return complete_trailer(user_context, objects)
     return []
 
 
